@@ -217,14 +217,15 @@ def eval3(test, atom):
     return atom(test)
 
 
-def cfg_reach_under(cfg, atom, starts=None):
+def cfg_reach_under(cfg, atom, starts=None, blocked=(), follow_exc=True):
     """nodes reachable from the entry when every test is evaluated with eval3(test, atom): a decided test follows one
-    edge only."""
+    edge only.  `blocked` nodes are not entered."""
     seen = set()
+    blocked = set(blocked)
     stack = list(starts or [cfg.entry])
     while stack:
         n = stack.pop()
-        if n in seen:
+        if n in seen or n in blocked:
             continue
         seen.add(n)
         v = None
@@ -232,6 +233,8 @@ def cfg_reach_under(cfg, atom, starts=None):
             v = eval3(n.ast, atom)
         for (m, lab) in cfg.succ[n]:
             if v is not None and lab in (True, False) and lab != v:
+                continue
+            if lab == 'exc' and not follow_exc:
                 continue
             stack.append(m)
     return seen
@@ -274,3 +277,105 @@ def anon_text(node, fnode, limit=None):
         for n, old in changed:
             n.id = old
     return t if limit is None else t[:limit]
+
+
+class _Unknown(Exception):
+    pass
+
+
+_STR_METHODS = ('startswith', 'endswith', 'lower', 'upper', 'replace', 'strip', 'lstrip', 'rstrip', 'isdigit', 'isalpha',
+                'isalnum', 'find', 'count', 'split', 'rstrip', 'casefold', 'removeprefix', 'removesuffix')
+
+
+def _cev(e, env):
+    t = norm(e)
+    if t in env:
+        return env[t]
+    if isinstance(e, ast.Constant):
+        return e.value
+    if isinstance(e, (ast.Tuple, ast.List)):
+        return tuple(_cev(x, env) for x in e.elts)
+    if isinstance(e, ast.Set):
+        return frozenset(_cev(x, env) for x in e.elts)
+    if isinstance(e, ast.UnaryOp):
+        v = _cev(e.operand, env)
+        if isinstance(e.op, ast.Not):
+            return not v
+        if isinstance(e.op, ast.USub):
+            return -v
+        raise _Unknown()
+    if isinstance(e, ast.BoolOp):
+        last = None
+        for x in e.values:
+            last = _cev(x, env)
+            if isinstance(e.op, ast.And) and not last:
+                return last
+            if isinstance(e.op, ast.Or) and last:
+                return last
+        return last
+    if isinstance(e, ast.IfExp):
+        return _cev(e.body, env) if _cev(e.test, env) else _cev(e.orelse, env)
+    if isinstance(e, ast.Compare):
+        left = _cev(e.left, env)
+        for op, r in zip(e.ops, e.comparators):
+            right = _cev(r, env)
+            try:
+                ok = {ast.Eq: lambda: left == right, ast.NotEq: lambda: left != right, ast.Lt: lambda: left < right,
+                      ast.LtE: lambda: left <= right, ast.Gt: lambda: left > right, ast.GtE: lambda: left >= right,
+                      ast.In: lambda: left in right, ast.NotIn: lambda: left not in right, ast.Is: lambda: left is right,
+                      ast.IsNot: lambda: left is not right}[type(op)]()
+            except TypeError:
+                raise _Unknown()
+            if not ok:
+                return False
+            left = right
+        return True
+    if isinstance(e, ast.BinOp) and isinstance(e.op, (ast.Add, ast.Mult, ast.Sub)):
+        l, r = _cev(e.left, env), _cev(e.right, env)
+        try:
+            return l + r if isinstance(e.op, ast.Add) else l * r if isinstance(e.op, ast.Mult) else l - r
+        except TypeError:
+            raise _Unknown()
+    if isinstance(e, ast.Subscript):
+        v = _cev(e.value, env)
+        if isinstance(e.slice, ast.Slice):
+            lo = _cev(e.slice.lower, env) if e.slice.lower else None
+            hi = _cev(e.slice.upper, env) if e.slice.upper else None
+            st = _cev(e.slice.step, env) if e.slice.step else None
+            try:
+                return v[lo:hi:st]
+            except TypeError:
+                raise _Unknown()
+        try:
+            return v[_cev(e.slice, env)]
+        except (TypeError, IndexError, KeyError):
+            raise _Unknown()
+    if isinstance(e, ast.Call) and not e.keywords:
+        if isinstance(e.func, ast.Attribute) and e.func.attr in _STR_METHODS:
+            recv = _cev(e.func.value, env)
+            if isinstance(recv, str):
+                return getattr(recv, e.func.attr)(*[_cev(a, env) for a in e.args])
+            raise _Unknown()
+        if isinstance(e.func, ast.Name) and e.func.id in ('len', 'bool', 'str', 'int', 'ord', 'chr', 'isinstance') and e.func.id not in env:
+            args = [_cev(a, env) for a in e.args]
+            if e.func.id == 'isinstance':
+                raise _Unknown()
+            try:
+                return {'len': len, 'bool': bool, 'str': str, 'int': int, 'ord': ord, 'chr': chr}[e.func.id](*args)
+            except (TypeError, ValueError):
+                raise _Unknown()
+    raise _Unknown()
+
+
+def const_eval(expr, env):
+    """fold an expression over literals and the given bindings ({normalised source text: Python constant}): pure operators,
+    comparisons and str methods only.  Returns (True, value) or (False, None) when something in it is not known."""
+    try:
+        return True, _cev(expr, env)
+    except (_Unknown, AttributeError, TypeError, ValueError):
+        return False, None
+
+
+def const_truth(expr, env):
+    ok, v = const_eval(expr, env)
+    return bool(v) if ok else None
